@@ -1163,7 +1163,9 @@ fn td_to_render_tree<'a, T: Write>(
         for attr in attrs.borrow().iter() {
             if &attr.name.local == "colspan" {
                 let v: &str = &attr.value;
-                colspan = v.parse().unwrap_or(1);
+                // The HTML standard clamps colspan to 1000; larger values
+                // would also overflow when the spans of a row are added up.
+                colspan = v.parse().unwrap_or(1).min(1000);
             }
         }
     }
